@@ -57,6 +57,10 @@ def build_pool(rng):
         # related input: same signature entries, different payload
         other = {"signatures": c["env"]["signatures"], "signed": {"changed": i}}        # shares the entries *object*
         pool["envs"].append((other, c["auth"], gpg))
+    for gpg in (False, True):
+        # entries whose diagnostics would echo printable non-ASCII text: the verdict may not depend on what stdout can encode
+        c = envgen.signable_case(rng, gpg, states=["raw_valid" if not gpg else "gpg_valid", "nonascii_value", "nonascii_value"], npool=3)
+        pool["envs"].append((c["env"], c["auth"] or [gen.key(0).hex], gpg))
     for i in range(6):
         role, u, t = deleg_case(rng, bool(i % 2))
         if i % 3 == 0:
@@ -163,6 +167,8 @@ def run(ck: Check) -> None:
         obj = gen.rand_json(rng, 4, [25])
         if not isinstance(obj, (dict, list)) or not obj:
             obj = {"a": [1, {"b": obj}], "c": {"d": [2, 3]}}
+        if rng.random() < 0.3:
+            obj = (obj, [1, {"k": [2, 3]}], {"t": {"u": 1}})      # a top-level tuple is immutable, what it holds is not
         w = impl.signing.wrap_as_signable(obj)
         ck.evaluations += 1
         frozen = copy.deepcopy(w)
@@ -239,6 +245,57 @@ def run(ck: Check) -> None:
         if [snapshot(a) for a in args] != s0:
             ck.violation("arguments were modified during concurrent verification", {"call": op}, f"threads-mutated:{op}")
             break
+
+    # systematic interference (deterministic, unlike the scheduler above): while call X runs, another complete call Y is executed between *every two
+    # lines* X executes inside the library (what a thread switch at that point would amount to).  X's verdict and Y's verdicts must be the sequential ones.
+    repo_pkg = os.path.join(os.path.realpath(os.environ.get("CCT_REPO", "/repo")), "conda_content_trust") + os.sep
+    vcalls = [c for c in tcalls if c[0] in ("vsignable", "vdeleg", "vroot")]
+    okc = [c for c, sq in zip(tcalls, seq) if sq == "OK" and c[0] in ("vsignable", "vdeleg", "vroot")]
+    badc = [c for c, sq in zip(tcalls, seq) if sq.startswith("E SignatureError")]
+    pairs = []
+    for x in (okc[:3] + badc[:3]):
+        for y in (badc[:2] + okc[:2]):
+            if x is not y:
+                pairs.append((x, y))
+    injected = 0
+    for (xop, xargs), (yop, yargs) in pairs[: (40 if ck.thorough else 10)]:
+        want_x = direct(impl, xop, xargs)
+        want_y = direct(impl, yop, yargs)
+        bad_y = []
+        count = [0]
+
+        def local_tracer(frame, event, arg):
+            if event == "line" and count[0] < 400:
+                count[0] += 1
+                sys.settrace(None)
+                try:
+                    out = impl._run(yop, yargs)
+                    if out != want_y:
+                        bad_y.append(out)
+                finally:
+                    sys.settrace(global_tracer)
+            return local_tracer
+
+        def global_tracer(frame, event, arg):
+            if event == "call" and os.path.realpath(frame.f_code.co_filename).startswith(repo_pkg):
+                return local_tracer
+            return None
+
+        with impl.quiet_stdout():
+            sys.settrace(global_tracer)
+            try:
+                got_x = impl._run(xop, xargs)
+            finally:
+                sys.settrace(None)
+        injected += count[0]
+        ck.evaluations += 1
+        ck.oracle_checks += 1
+        if got_x != want_x or bad_y:
+            ck.violation("a verdict changed when another call ran between two steps of this one (state shared between calls)",
+                         {"call": xop, "alone": want_x, "interleaved": got_x, "interfering_call": yop, "interfering_alone": want_y, "interfering_interleaved": bad_y[:2],
+                          "request": impl.enc_case(xop, xargs)[:800]}, f"interleaved:{xop}")
+            break
+    ck.count("interference-points", injected)
 
     # the same seeded batch of calls in fresh processes under other configurations: identical verdict digests
     env0 = dict(os.environ, PYTHONPATH=os.path.dirname(os.path.dirname(os.path.dirname(os.path.abspath(__file__)))))
